@@ -201,7 +201,7 @@ def c16(tier, seed):
         'single word indices (11 bits) are not searched, only adjacent pairs; secrets are searched as 8-byte windows'])
 
 def c20(tier, seed):
-    runs = [Run('e3_sched', 'tsanrt', ['only', str(h)], label='e3_sched[tsanrt] H%d' % h) for h in (3, 2, 1)]
+    runs = [Run('e3_sched', 'tsanrt', ['only', str(h)], label='e3_sched[tsanrt] H%d' % h) for h in ((5, 3, 4, 2, 1) if tier == 'thorough' else (3, 4, 2, 1))]
     runs.append(Run('e3_free', 'tsan', [], label='e3_free[tsan] free-running ThreadSanitizer pass'))
     def cov(results):
         c = {'e3': {}}
